@@ -6,7 +6,7 @@ V = lambda i: ('v', i)
 L = lambda n=1: ('lit', n)
 M_ID, K_ID = 0, 8            # g0 is the mutable base, K the constant base
 
-LINKS = ['const', 'fun-return', 'fun-local', 'fun-const-local', 'fun-if', 'fun-while', 'fun-arg', 'fun-chain']
+LINKS = ['const', 'fun-return', 'fun-local', 'fun-const-local', 'fun-if', 'fun-while', 'fun-arg', 'fun-chain', 'fun-void-out']
 CONTEXTS = ['arraysize', 'range', 'scalarsize', 'global-init', 'const-init', 'template-init', 'value-arg', 'constref-arg', 'typedef-range', 'struct-array', 'select-range',
             'template-array', 'param-range', 'fun-param-array', 'fun-param-range', 'fun-param-ref-array', 'fun-local-array', 'fun-local-range', 'fun-return-range',
             'template-fun-param-array', 'block-local-array', 'iteration-range', 'quantifier-range', 'fun-param-2d-array', 'struct-field-range']
@@ -56,6 +56,14 @@ class Chain:
                 self.text_items.append(('fun', k))
                 cur = ('call', k, [cur])
                 continue
+            elif ln == 'fun-void-out':
+                # a void function hands the previous link out through a reference parameter; the next function calls it as a statement
+                pid = nid + 700
+                self.N.add(pid, 'p%d' % pid)
+                self.funs.append(dict(params=[(pid, 'ref')], void=True, body=('block', [], [('expr', ('asg', V(pid), cur, '='))])))
+                self.text_items.append(('fun', k))
+                body = ('block', [(lid, L(0))], [('expr', ('call', k, [V(lid)])), ('ret', V(lid))])
+                k += 1
             elif ln == 'fun-chain':
                 self.funs.append(dict(params=[], body=('block', [], [('ret', cur)])))
                 self.text_items.append(('fun', k))
